@@ -114,8 +114,7 @@ class ArrayConstraintBuilder(ConstraintOverrideVisitor):
         else:
             # As for a direct reference, the referenced dynamic-constraint 
             # block is part of this solve: expand the arrays it iterates over
-            fm = Expr2FieldVisitor().field(e.root, True)
-            fm.constraint_dynamic_model_l[e.idx].accept(self)
+            e.get_constraint().accept(self)
 
     def visit_expr_array_sum(self, s):
         # Don't recurse into this
